@@ -25,6 +25,13 @@
      a slot, each exactly once; the push of this model is that reservation.
      Single writes do not take _con_spl: a foreign message can land between the messages of a batch.
 
+   The batch buffer (Session::_batchmsgs_buffer, s_batch of Sess.Session) is a plain byte LIST here: appending and
+   handing it to the socket have no capacity, no reallocation and no pointers.  That the std::string behind it is used
+   correctly when an append makes it reallocate (reserve(10 * (FIX8_MAX_MSG_LENGTH + HEADER_CALC_OFFSET)) = 82,240 bytes in
+   the constructors, doubling afterwards) is a fact about the C++ the tie has to show: the generators of the suite read
+   the reserve expression from runtime/session.cpp and build batches whose total size is just below / exactly at / just
+   above that capacity (and twice it), with the crossing on the last or on an inner message.
+
    NOT modelled / not provable here (ASSUMPTIONS of the suite): that pthread_spin_lock gives mutual exclusion,
    that the queue primitives are atomic, that there are no data races.
 
